@@ -310,7 +310,7 @@ fn build_test_case(rk: usize, files: &[usize], fmt: &str, dir_layout: bool) -> V
 pub fn run(tier: &str) -> i32 {
     let thorough = tier == "thorough";
     let mut rep = Report::new("C06", tier);
-    let rs = seqs(RK.len(), if thorough { 3 } else { 2 });
+    let rs = seqs(RK.len(), 3);
     let ds = seqs(DK.len(), if thorough { 3 } else { 2 });
     let mut cases: Vec<(usize, usize, Mode)> = vec![];
     for (ri, _) in rs.iter().enumerate() {
